@@ -7,6 +7,7 @@ import (
 	"fmt"
 	"math/rand"
 	"os"
+	"runtime"
 	"sort"
 	"strconv"
 	"strings"
@@ -83,7 +84,7 @@ func (h *tbHist) rec(op string, err error) {
 	}
 }
 
-func (h *tbHist) obs() { h.line("%s", h.rig.fullObs(nil)) }
+func (h *tbHist) obs() { h.line("%s", h.stableObs()) }
 
 func (h *tbHist) fresh() int { h.nextID++; return h.nextID }
 
@@ -97,9 +98,39 @@ func (h *tbHist) playerIDs() []int {
 	return out
 }
 
-// settle the auto-join ready group after a membership call (D21/D22): all answered, then a moment for its callbacks
+// schedBarrier lets goroutines that were made runnable before this call get their turn: a few rounds of freshly spawned
+// goroutines that yield and report back (Go runs runnable goroutines roughly in FIFO order per processor)
+func schedBarrier(rounds int) {
+	for i := 0; i < rounds; i++ {
+		done := make(chan struct{})
+		go func() {
+			runtime.Gosched()
+			close(done)
+		}()
+		<-done
+		runtime.Gosched()
+	}
+}
+
+// stableObs reads the full observation until two consecutive reads, a moment apart, agree (quiescent point)
+func (h *tbHist) stableObs() string {
+	prev := h.rig.fullObs(nil)
+	for i := 0; i < 40; i++ {
+		schedBarrier(2)
+		time.Sleep(700 * time.Microsecond)
+		cur := h.rig.fullObs(nil)
+		if cur == prev {
+			return cur
+		}
+		prev = cur
+	}
+	return prev
+}
+
+// settle the auto-join ready group after a membership call (D21/D22): all answered, then its callbacks get their turn
 func (h *tbHist) quiesce() {
 	waitFor(200*time.Millisecond, h.rig.autoJoinQuiet)
+	schedBarrier(4)
 	time.Sleep(1200 * time.Microsecond)
 }
 
@@ -122,8 +153,25 @@ func (h *tbHist) opReserve(id int, chips int64, seat int) error {
 	h.line("tb reserve id=%d chips=%d seat=%d ch=%s | %s", id, chips, seat, ch, tbErrName(err))
 	h.rec("reserve", err)
 	h.quiesce()
+	if err == nil && !known {
+		h.staleAutoJoin([]int{id})
+	}
 	h.obs()
 	return err
+}
+
+// staleAutoJoin: a player who was just given a seat is already seated-in although nobody joined him — the completion
+// callback of an earlier auto-join group ran late and walked the current player list (D22); recorded as an event
+func (h *tbHist) staleAutoJoin(newIDs []int) {
+	for _, p := range h.table().State.PlayerStates {
+		for _, id := range newIDs {
+			if p.PlayerID == pid(id) && p.IsIn {
+				h.line("tb autojoin")
+				h.st.OpMix["autojoin-stale"]++
+				return
+			}
+		}
+	}
 }
 
 func (h *tbHist) opJoin(id int) error {
@@ -192,6 +240,13 @@ func (h *tbHist) opUpdate(joins []joinSpec, leaves []int) error {
 	h.line("tb update joins=%s leaves=%s ch=%s | %s", jp, joinInts(leaves), joinInts(ch), tbErrName(err))
 	h.rec("update", err)
 	h.quiesce()
+	if err == nil {
+		ids := []int{}
+		for _, j := range joins {
+			ids = append(ids, j.id)
+		}
+		h.staleAutoJoin(ids)
+	}
 	h.obs()
 	return err
 }
